@@ -354,9 +354,56 @@ def _queue_unbounded(ctx):
     if n < 2:
         raise AnalysisError(f"{RD}: queue construction / put sites not found ({n})")
 
-TERMINAL_CLEANUP = {
-    "CommandPipeline._end": "the pipeline is being ended: tee_stdout() has run the last stage to completion or an exception is unwinding",
-}
+TERMINAL_CLEANUP = "the pipeline is being ended: tee_stdout() has run the last stage to completion or an exception is unwinding"
+
+
+def _runs_last_stage_out(stmts):
+    """the statements consume `self.tee_stdout()` to its end (iterraw returns only once the last stage is over):
+    a loop over it that is never left early, or the generator handed whole to a consumer"""
+    for s in stmts:
+        for n in ast.walk(s):
+            if isinstance(n, ast.Call) and call_name(n) == "self.tee_stdout":
+                up = parent(n)
+                if isinstance(up, ast.For) and up.iter is n:
+                    if not any(isinstance(x, (ast.Break, ast.Return)) for b in up.body for x in ast.walk(b)):
+                        return True
+                elif isinstance(up, ast.Call) and any(n is a for a in up.args):
+                    return True
+    return False
+
+
+def _terminal_cleanup_sites(ctx, plm, closers):
+    """Call sites of the closers that play the role of the pipeline's *terminal cleanup*: in the helper-transparent
+    view of CommandPipeline.end() they sit in the `finally` of the try statement whose body runs tee_stdout() to its
+    end, and the code they live in is reached from end() only.  Identified by (function, position) of the call in
+    the source, whatever the method that holds the try statement is called and however it was split or inlined."""
+    endq = "CommandPipeline.end"
+    if not plm.has(endq):
+        raise AnchorMissing(f"{PL}:{endq}")
+    fe = flat(ctx, plm.func(endq), depth=4, skip=tuple(closers) + ("tee_stdout", "_return_terminal", "print_exception"))
+    seen = {}
+    for c in calls_in(fe):
+        if (call_name(c) or "").split(".")[-1] not in closers:
+            continue
+        st = stmt_of(c)
+        if getattr(st, "_xv_call_marker", False):
+            continue
+        origin = getattr(st, "_xv_from", (PL, endq))
+        in_role = False
+        node = c
+        for a in ancestors(c):
+            if isinstance(a, ast.Try) and any(node is x for x in a.finalbody) and _runs_last_stage_out(a.body):
+                in_role = True
+            node = a
+        k = (origin[0], origin[1], c.lineno, c.col_offset)
+        seen[k] = seen.get(k, True) and in_role
+    out = set()
+    for (rel, q, line, col), in_role in seen.items():
+        if not in_role or rel != PL:
+            continue
+        if q == endq or only_called_from(ctx.repo, plm, q, {endq}, depth=3):
+            out.add((q, line, col))
+    return out
 
 
 def _reader_ends(ctx):
@@ -375,6 +422,8 @@ def _reader_ends(ctx):
                     closers.add(q.split(".")[-1])
     if not closers:
         raise AnchorMissing(f"{PL}: no method that closes the reader ends of the earlier stages' pipes")
+    # the one place where they may be closed without a poll() fact: the terminal cleanup of end(), found by its role
+    terminal = _terminal_cleanup_sites(ctx, plm, closers)
     n = 0
     for q, fn in plm.functions():
         fcfg = None
@@ -384,8 +433,8 @@ def _reader_ends(ctx):
                 continue
             n += 1
             st = f"{PL}:{q}"
-            if q in TERMINAL_CLEANUP:
-                ctx.ob("R8", st, f"`{short(c)}`: {TERMINAL_CLEANUP[q]}", True, key=f"{q}|reader-ends-closed-while-last-stage-runs", where=loc(c))
+            if (q, c.lineno, c.col_offset) in terminal:
+                ctx.ob("R8", st, f"`{short(c)}`: {TERMINAL_CLEANUP}", True, key=f"{q}|reader-ends-closed-while-last-stage-runs", where=loc(c))
                 continue
             fcfg = fcfg or CFG(fn)
             facts = set()
